@@ -418,6 +418,18 @@ func RunRebuild(s *Scen, r *vk.Rand, a, b int, bin, base string, cycles int) {
 	// volume start are where concurrent add requests occur
 	mon := startMonitor(cl)
 	defer mon.Stop()
+	if s.Prop == "C10" && (s.Case/100)%2 == 1 {
+		// an old volume: every replica starts with a revision count beyond 2^31 (about a week of writes at a few
+		// thousand per second), as its revision.counter file would hold it
+		big := int64(3000000000) + int64(r.Intn(1000000))
+		s.Cfg["initial_revision_count"] = big
+		for _, p := range cl.Reps {
+			os.MkdirAll(p.Dir, 0700)
+			buf := make([]byte, 4096)
+			copy(buf, []byte(fmt.Sprint(big)))
+			os.WriteFile(filepath.Join(p.Dir, "revision.counter"), buf, 0600)
+		}
+	}
 	for _, p := range cl.Reps {
 		if err := cl.StartRep(p); err != nil {
 			s.inconclusive("start replica: %v", err)
